@@ -76,7 +76,7 @@ func (x *execCtx) lockRow(t *Table, row *Row, recheck func(*Row) (bool, error), 
 				// already modified by this transaction (same command): skip
 				return nil, nil
 			case st == txInProgress:
-				if err := s.waitFor(WaitInfo{HolderTop: top, What: fmt.Sprintf("row of %s", t.Name)}); err != nil {
+				if err := s.waitFor(WaitInfo{HolderTop: top, HolderXid: cur.Xmax, What: fmt.Sprintf("row of %s", t.Name)}); err != nil {
 					return nil, err
 				}
 				continue
@@ -97,23 +97,24 @@ func (x *execCtx) lockRow(t *Table, row *Row, recheck func(*Row) (bool, error), 
 				continue
 			}
 		}
-		// Locker is the (sub)transaction that took the FOR UPDATE lock. Doc 13.3.1: "if a lock
-		// is acquired after establishing a savepoint, the lock is released immediately if the
-		// savepoint is rolled back to" — a lock whose subtransaction aborted is not held.
+		// Locker is the (sub)transaction that took the lock: a row lock taken after a
+		// savepoint is released when that savepoint is rolled back to (Postgres docs,
+		// 13.3.2: "row-level locks are released at transaction end or during savepoint
+		// rollback"), i.e. as soon as its subtransaction is aborted.
 		if cur.Locker != 0 {
 			st, _ := db.status(cur.Locker)
 			switch {
 			case st != txInProgress:
 				cur.Locker = 0
 			case db.topOf(cur.Locker) != s.top:
-				if err := s.waitFor(WaitInfo{HolderTop: db.topOf(cur.Locker), What: fmt.Sprintf("row lock of %s", t.Name)}); err != nil {
+				if err := s.waitFor(WaitInfo{HolderTop: db.topOf(cur.Locker), HolderXid: cur.Locker, What: fmt.Sprintf("row lock of %s", t.Name)}); err != nil {
 					return nil, err
 				}
 				continue
 			}
 		}
 		if lockOnly && cur.Locker == 0 {
-			// (an own, still live lock is kept: it belongs to an enclosing subtransaction)
+			// (a lock this transaction already holds, possibly from an outer level, is kept)
 			cur.Locker = s.cur
 		}
 		return cur, nil
@@ -202,7 +203,7 @@ restart:
 				continue
 			}
 			if st == txInProgress && db.topOf(r.Xmin) != s.top {
-				if err := s.waitFor(WaitInfo{HolderTop: db.topOf(r.Xmin), What: "unique index " + ix.Name}); err != nil {
+				if err := s.waitFor(WaitInfo{HolderTop: db.topOf(r.Xmin), HolderXid: r.Xmin, What: "unique index " + ix.Name}); err != nil {
 					return nil, nil, err
 				}
 				goto restart
@@ -215,7 +216,7 @@ restart:
 				case sx == txInProgress && db.topOf(r.Xmax) == s.top:
 					continue // deleted/superseded by this transaction
 				case sx == txInProgress:
-					if err := s.waitFor(WaitInfo{HolderTop: db.topOf(r.Xmax), What: "unique index " + ix.Name}); err != nil {
+					if err := s.waitFor(WaitInfo{HolderTop: db.topOf(r.Xmax), HolderXid: r.Xmax, What: "unique index " + ix.Name}); err != nil {
 						return nil, nil, err
 					}
 					goto restart
